@@ -1,2 +1,75 @@
 //! Facade fragment "keyset" (see mod.rs): re-exports / wrappers the simulator needs
-//! from crate::keyset-related code. Owned by the world that uses it.
+//! from crate::keyset-related code. Owned by world w1n (NTS packet/cookie/keyset).
+//!
+//! Everything here is a thin wrapper around `pub(crate)` items: the simulator
+//! mints NTS sessions in-crate (`KeySet::encode_cookie`) and decodes cookies with
+//! the real `KeySet::decode_cookie`; session keys cross the boundary as plain bytes.
+
+use crate::keyset::{DecodedServerCookie, KeySet};
+use crate::nts::AeadAlgorithm;
+use crate::packet::{AesSivCmac256, AesSivCmac512, Cipher};
+
+pub const ALG_SIV_CMAC_256: u16 = 15;
+pub const ALG_SIV_CMAC_512: u16 = 17;
+
+/// Session keys as plain data (what a key exchange would have produced).
+#[derive(Clone, Debug, PartialEq, Eq)]
+pub struct SessionKeys {
+    pub alg: u16,
+    pub s2c: Vec<u8>,
+    pub c2s: Vec<u8>,
+}
+
+/// Key length in bytes of the given AEAD algorithm id (None = unknown algorithm).
+pub fn key_len(alg: u16) -> Option<usize> {
+    match AeadAlgorithm::from(alg) {
+        AeadAlgorithm::AeadAesSivCmac256 => Some(32),
+        AeadAlgorithm::AeadAesSivCmac512 => Some(64),
+        AeadAlgorithm::Unknown(_) => None,
+    }
+}
+
+/// The repo's cipher object for (alg, key bytes).
+pub fn cipher_from(alg: u16, key: &[u8]) -> Option<Box<dyn Cipher>> {
+    match AeadAlgorithm::from(alg) {
+        AeadAlgorithm::AeadAesSivCmac256 => Some(Box::new(AesSivCmac256::try_from(key).ok()?)),
+        AeadAlgorithm::AeadAesSivCmac512 => Some(Box::new(AesSivCmac512::try_from(key).ok()?)),
+        AeadAlgorithm::Unknown(_) => None,
+    }
+}
+
+pub fn make_cookie_keys(k: &SessionKeys) -> Option<DecodedServerCookie> {
+    Some(DecodedServerCookie {
+        algorithm: AeadAlgorithm::from(k.alg),
+        s2c: cipher_from(k.alg, &k.s2c)?,
+        c2s: cipher_from(k.alg, &k.c2s)?,
+    })
+}
+
+pub fn cookie_keys_view(c: &DecodedServerCookie) -> SessionKeys {
+    SessionKeys {
+        alg: u16::from(c.algorithm),
+        s2c: c.s2c.key_bytes().to_vec(),
+        c2s: c.c2s.key_bytes().to_vec(),
+    }
+}
+
+/// Real `KeySet::encode_cookie` (what the key-exchange server and the NTP server call).
+pub fn encode_cookie(ks: &KeySet, k: &SessionKeys) -> Option<Vec<u8>> {
+    Some(ks.encode_cookie(&make_cookie_keys(k)?))
+}
+
+/// Real `KeySet::decode_cookie`.
+pub fn decode_cookie(ks: &KeySet, cookie: &[u8]) -> Option<SessionKeys> {
+    ks.decode_cookie(cookie).ok().map(|c| cookie_keys_view(&c))
+}
+
+/// Read-only view of a key set (filled by keyset_probe.rs).
+#[derive(Clone, Debug, PartialEq, Eq)]
+pub struct KeySetView {
+    pub n_keys: usize,
+    pub primary: u32,
+    pub id_offset: u32,
+    /// raw master keys, oldest first (used only to check that they never show up on the wire)
+    pub keys: Vec<Vec<u8>>,
+}
